@@ -65,13 +65,6 @@ inductive Unit where
   | repl
 deriving Repr, DecidableEq
 
-/-- number of input bytes the head unit covers; `truncated` covers everything (and is ≥ 1) -/
-def Head.len (h : Head) (total : Nat) : Nat :=
-  match h with
-  | .scalar n => n
-  | .invalid n => n
-  | .truncated => total
-
 /-- the decoded stream of a complete input (end of input after the last byte) -/
 def units : List UInt8 → List Unit
   | [] => []
